@@ -213,9 +213,15 @@ def _init_unit(estimands, policy, name, prepared=False):
             c = pre.col("baseline_normalized_margin")
             h.ensures("baseline.normalized_margin", z3.Implies(facts_b, z3.And(c.t == _div0(s["baseline_dem"] - s["baseline_gop"], s["baseline_dem"] + s["baseline_gop"]), z3.Not(c.nan) if c.nan is not None else True)))
         obj = h.obj(CDH)
+        feed_before, pre_before = dict(feed.cols), dict(pre.cols)
         kind, _ = h.call_method(obj, "__init__", pre, feed, list(estimands), "county", handle_unreporting=policy)
         if kind == "raise":
             return h.fail("init.no_raise", f"raised {_}")
+        # frame condition (C11 / C12): the two tables belong to the CALLER -- a poller keeps its feed frame and passes it
+        # again on the next run -- so the handler must leave them exactly as it found them (columns and cells)
+        rp_in = lambda ev: {"target": "verif_replays:inputs_not_modified_replay", "args": [list(estimands), policy], "check": "result['exc'] is None and result['ok']"}  # noqa: E731
+        h.ensures("inputs.the_callers_feed_frame_is_left_as_it_was_found", list(feed.cols) == list(feed_before) and all(feed.cols[k] is feed_before[k] for k in feed_before), why=f"columns before {list(feed_before)} / after {list(feed.cols)}", replay=rp_in)
+        h.ensures("inputs.the_callers_preprocessed_frame_is_left_as_it_was_found", list(pre.cols) == list(pre_before) and all(pre.cols[k] is pre_before[k] for k in pre_before), why=f"columns before {list(pre_before)} / after {list(pre.cols)}", replay=rp_in)
         data = obj.attrs["data"]
         matched = z3.And(s["inFeed"], s["pc_b"] == s["pc_f"])
         facts = z3.And(*root.facts())
